@@ -108,7 +108,19 @@ pub fn minimise(prop: &str, case: &AnyCase, class: &str, mut budget: usize) -> A
     let mut cur = case.clone();
     let mut i = 0usize;
     let mut improved_in_pass = false;
+    let started = Instant::now();
+    let mut evals = 0u64;
     loop {
+        // heartbeat for the driver's stall watchdog, and a wall-clock bound on minimisation
+        evals += 1;
+        if evals % 20 == 0 {
+            let mut o = std::io::stdout().lock();
+            let _ = writeln!(o, "M {}", evals);
+            let _ = o.flush();
+        }
+        if started.elapsed() > Duration::from_secs(120) {
+            return cur;
+        }
         let cands = props::shrink(&cur);
         if i >= cands.len() {
             if !improved_in_pass {
